@@ -22,7 +22,7 @@ from vlib.util import rng_of, scratch_dir, maxabs
 from vlib import wbsys
 
 PROPERTY_ID = "C18"
-RULE = ("random real-space models, num_wann 1..7 (odd and even), <=11 R-vectors closed or not closed under negation "
+RULE = ("random real-space models, num_wann 1..7 (odd and even), <=21 R-vectors closed or not closed under negation "
         "(|R_i|<=3 plus an optional far vector |R_i|<=150), centres inside/outside/coinciding/with |x|<1e-7 Cartesian "
         "components, 11 lattice families, entries partly exactly zero; npz: Ham + any subset of 12 further matrices and a "
         "point group generated from lattice-compatible generators (optionally x TR, rotated frame); tb: Ham(+AA) in "
@@ -139,23 +139,27 @@ def _case_st(fmt):
     if fmt == "npz":
         model = wbsys.model_params_st(max_wann=7, max_npairs=5, rmax=3, keys=("Ham",), optional_keys=NPZ_OPTIONAL)
     elif fmt == "tb":
-        model = wbsys.model_params_st(max_wann=7, max_npairs=5, rmax=3, keys=("Ham",), optional_keys=("AA",))
+        model = wbsys.model_params_st(max_wann=7, max_npairs=5, rmax=3, keys=("Ham",))
     else:
         model = wbsys.model_params_st(max_wann=7, max_npairs=5, rmax=3, keys=("Ham",))
     d = dict(
         model=model,
         closed=st.booleans(),
+        moreR=st.one_of(st.just([]), st.lists(st.tuples(*[st.integers(-3, 3)] * 3), min_size=1, max_size=4, unique=True)),
         bigR=st.one_of(st.none(), st.none(), st.lists(st.integers(-150, 150), min_size=3, max_size=3)),
         zero_frac=st.sampled_from([0.0, 0.0, 0.3, 0.7]),
         tiny=st.lists(st.tuples(st.integers(0, 6), st.integers(0, 2), st.integers(0, len(TINY_VALUES) - 1)), max_size=3),
         kpts=st.lists(wbsys.kpoint_st(), min_size=2, max_size=2),
     )
     if fmt == "npz":
-        d.update(gens=st.lists(st.tuples(st.integers(0, 7), st.booleans()), max_size=3),
+        _g = st.tuples(st.sampled_from(range(8)), st.sampled_from([False, False, True]))
+        d.update(gens=st.one_of(st.just([]), st.lists(_g, min_size=1, max_size=3)), gen0=_g,
+                 use_gen0=st.sampled_from([True, True, False]),
                  loader=st.sampled_from(["from_npz", "load_npz", "subset"]),
                  nsub=st.integers(0, 3))
     elif fmt == "tb":
-        d.update(mode=st.sampled_from(["II-file", "II-passed", "I-passed", "II-noberry-file", "II-noberry-passed"]))
+        d.update(aa=st.sampled_from([True, True, True, False]),
+                 mode=st.sampled_from(["II-file", "II-file", "II-passed", "I-passed", "II-noberry-file", "II-noberry-passed"]))
     else:
         d.update(centres_from=st.sampled_from(["file", "file", "passed"]))
     return st.fixed_dictionaries(d)
@@ -168,8 +172,11 @@ def _case_st(fmt):
 def build_model(case):
     p = dict(case["model"])
     closed = bool(case["closed"])
-    if case.get("bigR") is not None:
-        p["R"] = [list(r) for r in p["R"]] + [list(case["bigR"])]
+    p["R"] = [list(r) for r in p["R"]] + [list(r) for r in case["moreR"] if list(r) not in [list(x) for x in p["R"]]]
+    if case.get("bigR") is not None and list(case["bigR"]) not in p["R"]:
+        p["R"] = p["R"] + [list(case["bigR"])]
+    if case.get("aa"):
+        p["keys"] = list(p["keys"]) + ["AA"]
     model = wbsys.make_model(p, hermitian=True, closed=closed)
     L = model.lattice
     # centres with tiny Cartesian components
@@ -326,7 +333,7 @@ def check_npz(case):
     from wannierberri.symmetry.point_symmetry import PointSymmetry
     model = build_model(case)
     L = model.lattice
-    gens = group_generators(case["model"]["lat"], case["gens"], L)
+    gens = group_generators(case["model"]["lat"], ([case["gen0"]] if case["use_gen0"] else []) + list(case["gens"]), L)
     s = wbsys.to_system(model, pointgroup_gen=[PointSymmetry(R.copy(), TR=tr) for R, tr in gens] if gens else None)
     own = own_closure(gens)
     if s.pointgroup.size != len(own):
